@@ -8,7 +8,7 @@ CLAIM = ("Theorem word_det_sound (Lean): an automaton that passes the word-deter
          "continuation per typed word among literals (whatever description / `||` level they carry) and among within-word automata "
          "(whatever pool entry they are; language identity = verified canonical minimal form); word_conflict_real: the witness the "
          "checker returns on failure is a real pair of transitions. On every run the checker is applied to every automaton the real "
-         "library produces (main + within-word, raw + minimised) for grammars biased as the quantifier asks, so each explored automaton "
+         "library produces and scripts are written from (main + within-word, minimised: there a difference of target states is a difference of continuations, by C03; a conflict of the raw automaton with inequivalent targets survives the quotient) for grammars biased as the quantifier asks, so each explored automaton "
          "is decided exactly; the `||` grammar and its `|` variant are decided language-equal with labels erased by the verified "
          "bisimulation checker; fallback_transparent (Lean, all grammars): whenever the model of check.rs accepts a grammar and its `|` "
          "variant, the two validated expressions agree once descriptions, levels and positions are erased and `||` is read as `|` (through "
@@ -210,6 +210,13 @@ def analyse(ctx, parts):
         if not a.startswith("conflict"):
             ctx.correspondence_breaks.append(("worddet", {"grammar": text, "answer": a}))
             continue
+        if which == "raw":
+            # two items of a raw state that lead to *different raw states* need not lead to different continuations:
+            # the raw automaton is not reduced (e.g. `(<N> || <N>)` where <N> has `||` levels of its own: the two copies
+            # of what follows differ in positions only).  The minimised automaton of the same grammar is checked next;
+            # a conflict with inequivalent targets survives the quotient and is reported there.
+            ctx.count("raw-conflict(decided-on-minimised)")
+            continue
         conflict.add(cid)
         kind = classify(a, specs.get(cid))
         ctx.count("conflict:" + kind)
@@ -255,7 +262,7 @@ def analyse(ctx, parts):
 def run(ctx, proof):
     ctx.extra["rule"] = ("special shapes (same literal in two `||` branches / call variants / behind definitions, within-word expressions repeated "
                          "with permuted alternatives or through different definitions) + random grammars rich in `||` and within-word "
-                         "expressions; every automaton of the real library (main and within-word, raw and minimised) goes through the verified "
+                         "expressions; every minimised automaton of the real library (main and within-word) goes through the verified "
                          "word-determinism checker; the grammar and its `|` variant are decided equivalent with levels erased. "
                          "non-trivial = grammar contains `||` and both forms are accepted")
     n = 12000 if ctx.thorough() else 700
@@ -277,7 +284,7 @@ def replay(ctx, proof, path):
     ans = core.driver_batch(["canon " + stages.wire(s) for s in rec["subdfas"]])
     hs = [a.split()[1] if a.startswith("ok ") else "?" for a in ans]
     sk = [f"{h}.{hs[:k].count(h)}" for k, h in enumerate(hs)]
-    reqs = ["worddet " + stages.wire(rec[w], sk) for w in ("raw", "min") if w in rec] + ["worddet " + stages.wire(s) for s in rec["subdfas"]]
+    reqs = ["worddet " + stages.wire(rec[w], sk) for w in ("min",) if w in rec] + ["worddet " + stages.wire(s) for s in rec["subdfas"]]
     bad = [a for a in core.driver_batch(reqs) if a != "det"]
     if bad:
         print(f"VIOLATION property={ctx.prop} replay={path}")
